@@ -63,3 +63,23 @@ Theorem C18_plain_unchanged : forall fpext fptrunc errtab cfg sc plain s q hs us
   client_handshake hs false = HOk false user ->
   run_on_tls fpext fptrunc errtab cfg sc plain s = run_on fpext fptrunc errtab cfg sc s.
 Proof. exact tls_plain_same. Qed.
+
+(* "loses no bytes" for the EXACT reader the engine is given (PrependedReader = Chain<Cursor<Vec>, T>,
+   Model/Prepend.v), started as switch_to_tls starts it (buffered tail, cursor not yet exhausted): for
+   every sequence of buffer sizes the engine reads with, what it received so far followed by what is
+   still pending (rest of the tail, then the socket) is exactly  tail ++ socket data  -- nothing lost,
+   duplicated or reordered; and while tail bytes remain the socket is not touched *)
+From MsqlVerif Require Import Model.Prepend Proofs.PrependNoLoss.
+Theorem C18_exact_reader_no_loss : forall caps tail s,
+  Forall (fun c => (0 < c)%nat) caps -> all_data (s_reads s) ->
+  exists out p' s',
+    prd_reads caps {| pr_pre := tail; pr_done := false |} s = (ROk out, p', s') /\ all_data (s_reads s') /\
+    out ++ pr_pre p' ++ reads_data (s_reads s') = tail ++ reads_data (s_reads s).
+Proof.
+  intros caps tail s Hc Hd.
+  exact (prepend_no_loss caps {| pr_pre := tail; pr_done := false |} s Hc (fun H => False_ind _ (Bool.diff_false_true H)) Hd).
+Qed.
+Theorem C18_exact_reader_tail_first : forall cap p s,
+  (0 < cap)%nat -> pr_done p = false -> pr_pre p <> [] ->
+  prd_read cap p s = (ROk (firstn cap (pr_pre p)), {| pr_pre := skipn cap (pr_pre p); pr_done := false |}, s).
+Proof. exact prepend_prefix_first. Qed.
